@@ -45,8 +45,11 @@ TRUSTED = [
     "hand-written coq/theories/Model/Enforcers.v (EnforcerPool, Parameter, Association/PropertyGroup/Shape validators, "
     "InputValidation.validate/validate_data), tied by histories run on the real objects",
     "tools/props/c15.py + uipv.py (generators, driver, tagged-JSON codec, oracles)",
+    "hand-written coq/theories/Model/IfValidate.v (the rule tables a validating InputFile accumulates over ui_json assignments, the data "
+    "setter, set_data_value), with _validations_from_uijson as PyLite output and base_validations extracted from constants.py; tied by "
+    "histories on one InputFile object and by sequences of forms inferred in one process",
     "not modelled: TypeUIDEnforcer and the Required*Enforcers (collection checks of the new UIJson class), FormParameter.register, "
-    "pydantic forms (forms.py BaseForm family), InputFile.data setter / set_data_value (exercised by C14's file cases only)",
+    "pydantic forms (forms.py BaseForm family)",
 ]
 ASSUMPTIONS = [
     "strings are printable ASCII; uuid-shaped strings use hex digits only (Python's int() leniency: sign, 0x, underscores, blanks is not modelled)",
@@ -57,6 +60,10 @@ ASSUMPTIONS = [
 RULE = ("rv: 2-6 forms from all 12 templates, each optional template member present/absent independently, group / groupOptional / "
         "dependency / dependencyType / enabled switches (exhaustive 2^7 switch vectors over a 3-parameter layout in every run, "
         "random layouts besides, ~8% ill-formed members); histories of 2-5 calls with good/bad values in every order; "
+        "infer: 2-3 template-built forms inferred one after the other in one process, the first one again at the end; ifv: one validating "
+        "InputFile serving one or two forms (second form with other - rarely the same - parameter names), whole-data assignments with "
+        "valid / invalid values, set_data_value, each verdict also taken on a brand-new InputFile with the same data; association "
+        "rules with parents that have nested children; "
         "non-trivial = a history with an accepted call after a rejected one, or a ui whose target has a group, dependency or optional member")
 LEVEL_TEXT = ("Proved for all ui.json dictionaries with any number of parameters and group members: requires_value (PyLite translation of the "
               "source) is total on well-formed dictionaries and equals the group > dependency > optional hierarchy; the validator chain "
